@@ -56,8 +56,50 @@ def check(ctx):
         for mode in ("shape-unknown", "any-container", "shape-known"):
             ctx.guard("C13.a CHECK-DOMINATES-KERNEL", f"{name}|{mode}", lambda: check_scorer(ctx, pkg, name, width, inner, mode))
             n_k += 1
+    for pkg, name, width, inner in SCORERS:
+        if name in MIN_SPACING:
+            ctx.guard("C13.c CHECK-COMPLETE", f"{name}|min-size-value", lambda: check_min_size_value(ctx, pkg, name), "")
     ctx.expect_min("C13.b SANITISE-RANGE", sum(1 for o in ctx.obs if o.rule == "C13.b SANITISE-RANGE" and o.status == "HOLDS"), 16)
     ctx.stats["sinks"] = count_sinks(ctx)
+
+
+# the minimum spacing each directly implemented scorer requires (the smallest interval its definition scores), as a function
+# of the number of variables p - the reference confirmed on the tree the checks were built on; adapters take their cost's
+# (C06.d MIN-SIZE-WIRE)
+MIN_SPACING = {
+    "L2Cost": lambda p: NF.const(1),
+    "GaussianVarCost": lambda p: NF.const(2),
+    "GaussianCovCost": lambda p: lift(p) + 1,
+    "CUSUM": lambda p: NF.const(1),
+    "L2Saving": lambda p: NF.const(1),
+}
+
+
+def check_min_size_value(ctx, pkg, name):
+    """the spacing bound is the scorer's required one whatever container the data came in: a univariate series handed over
+    as a 1-D array is one variable (p = 1), not n of them - a larger bound rejects cuts the property says are accepted"""
+    rule = "C13.c CHECK-COMPLETE"
+    cls = ctx.P.public_class(pkg, name)
+    loc = cls.methods["min_size"].loc() if "min_size" in cls.methods else cls.module.relpath
+    for label, shape, p in (("2-D data (n, p)", (N, Pdim), Pdim), ("1-D data (n,)", (N,), NF.const(1))):
+        ex2 = new_executor(ctx)
+
+        def thunk(ex2, shape=shape):
+            X = data_sym(ex2, shape=shape)
+            obj = make_obj(ex2, ctx, pkg, name, None)
+            call_method(ex2, obj, "fit", X)
+            return ex2.getattr(obj, "min_size", None)
+
+        paths = run(ctx, ex2, thunk)
+        rets = returns(paths)
+        want = MIN_SPACING[name](p)
+        if not rets:
+            ctx.undecided(rule, f"{name}|min-size-value|{label[:3]}", loc, "fit never returns on " + label, found=sorted({(q.outcome, q.exc.exc_name if q.exc else "") for q in paths})[:3])
+            continue
+        for q in rets:
+            v = q.value
+            ok = isinstance(v, Num) and v.nf is not None and nf_equal(v.nf, want)
+            ctx.check(ok, rule, f"{name}|min-size-value|{label[:3]}", loc, f"fitted on {label} the minimum spacing is {want!r}", found=repr(v), expected=repr(want))
 
 
 def check_who_may_call(ctx):
